@@ -153,14 +153,13 @@ func (server *Server) Restart() error {
 
 // open opens a listen socket.
 func (server *Server) open() error {
-	var err error
-
 	if server.IsPortEnabled() {
 		addr := net.JoinHostPort(server.Addr, strconv.Itoa(server.ConfigPort()))
-		server.portListener, err = netListen("tcp", addr)
+		l, err := netListen("tcp", addr)
 		if err != nil {
 			return err
 		}
+		server.portListener = l
 		log.Infof("%s/%s (%s) started", PackageName, Version, addr)
 	}
 
@@ -176,10 +175,11 @@ func (server *Server) open() error {
 			server.tlsConfig = tlsConfig
 		}
 		addr := net.JoinHostPort(server.Addr, strconv.Itoa(server.ConfigTLSPort()))
-		server.tlsPortListener, err = netListen("tcp", addr)
+		l, err := netListen("tcp", addr)
 		if err != nil {
 			return err
 		}
+		server.tlsPortListener = l
 		log.Infof("%s/%s (%s) started", PackageName, Version, addr)
 	}
 
